@@ -1342,6 +1342,14 @@ impl<T: BinaryMatrix> IntermediateSymbolDecoder<T> {
 
     #[inline(never)]
     pub fn execute(&mut self) -> (Option<SymbolSlab>, Option<Vec<SymbolOps>>) {
+        #[cfg(raptorq_verif)]
+        crate::verif_hooks::record_solver_entry(
+            self.num_source_symbols,
+            self.A.height(),
+            self.A.width(),
+            self.A_hdpc_rows.is_some(),
+            &self.D,
+        );
         #[cfg(debug_assertions)]
         self.X.disable_column_access_acceleration();
 
@@ -1349,6 +1357,8 @@ impl<T: BinaryMatrix> IntermediateSymbolDecoder<T> {
             self.A.disable_column_access_acceleration();
 
             if !self.second_phase(&x_elimination_ops) {
+                #[cfg(raptorq_verif)]
+                crate::verif_hooks::record_solver_exit(None);
                 return (None, None);
             }
 
@@ -1356,6 +1366,8 @@ impl<T: BinaryMatrix> IntermediateSymbolDecoder<T> {
             self.fourth_phase();
             self.fifth_phase(&x_elimination_ops);
         } else {
+            #[cfg(raptorq_verif)]
+            crate::verif_hooks::record_solver_exit(None);
             return (None, None);
         }
 
@@ -1376,6 +1388,8 @@ impl<T: BinaryMatrix> IntermediateSymbolDecoder<T> {
             order: reorder.clone(),
         });
         self.D.set_reorder(reorder);
+        #[cfg(raptorq_verif)]
+        crate::verif_hooks::record_solver_exit(Some(&operation_vector));
         let symbol_size = self.D.symbol_size();
         let result = mem::replace(&mut self.D, SymbolSlab::with_zeros(0, symbol_size));
         return (Some(result), Some(operation_vector));
